@@ -8,7 +8,7 @@ RELATED = {"C01": ["C01", "C02", "C08"], "C02": ["C02", "C01"], "C03": ["C03", "
            "C10": ["C10", "C08", "C09"], "C11": ["C11", "C13"], "C12": ["C12", "C08"], "C13": ["C13"], "C14": ["C14", "C06"],
            "C15": ["C15", "C06", "C09"], "C16": ["C16"], "C17": ["C17"], "C18": ["C18", "C04", "C13"]}
 claimed = [c["property_id"] for c in json.load(open(os.path.join(V, "MANIFEST.json")))["checks"]]
-ids = sys.argv[1:] or sorted(os.listdir(os.path.join(V, "seeded")))
+ids = sys.argv[1:] or sorted(x for x in os.listdir(os.path.join(V, "seeded")) if os.path.isdir(os.path.join(V, "seeded", x)))
 assert subprocess.run(["git", "-C", "/repo", "status", "--porcelain", "--untracked-files=no"], capture_output=True, text=True).stdout.strip() == "", "/repo not clean"
 for sid in ids:
     d = os.path.join(V, "seeded", sid)
